@@ -33,3 +33,5 @@ def run(F, rep):
         rep.holds("C18.5", "fields-private", "the iterator's counters cannot be desynchronised from outside the crate")
     else:
         rep.violated("C18.5", "fields-private", "a field of NodeKmerIter is public: %s" % vis)
+    # provided methods of the node iterators that the crate overrides must agree with next()
+    rep.run(dt_seq.node_iter_override_table, F, rep, "C18.9")
